@@ -37,6 +37,10 @@ def rule_ed_sem(ctx: RuleContext, p: Program, rid: str) -> None:
     ed = p.cls('Editor', 'editor')
     ts = TS(p)
     funcs = {f.name: f for f in p.functions_in(m) if f.cls is None and f.parent is None}
+    try:
+        prn = p.module('printer')
+    except AnalysisError:
+        prn = None
     from ..model import walk_no_nested
     session_yields = {id(y) for nm in ('edit_file', 'edit_file_recursive') for f in [ed.lookup(nm)] if isinstance(f, FuncInfo)
                       for y in walk_no_nested(f.node) if isinstance(y, ast.Yield)}
@@ -56,8 +60,13 @@ def rule_ed_sem(ctx: RuleContext, p: Program, rid: str) -> None:
         # -- the collaborators
         def parse(self, text: Any) -> Any:
             incs = [ln[len('include '):] for ln in str(text).split('\n') if ln.startswith('include ')]
-            mo = possem.Obj('FileModel', {'text': text, 'raw_directives': [possem.Obj('Include', {'filename': x}, f'include {x}') for x in incs]
-                                                  + [possem.Obj('Open', {}, 'open')]}, 'model')
+            # an include directive may stand anywhere in a ledger: a dated entry comes first, the includes are interleaved with others
+            dirs: list = [possem.Obj('Open', {'raw_date': 'DATE', 'date': 'DATE'}, 'a dated entry')]
+            for x in incs:
+                dirs.append(possem.Obj('Include', {'filename': x}, f'include {x}'))
+                dirs.append(possem.Obj('Transaction', {'raw_date': 'DATE', 'date': 'DATE'}, 'a dated entry'))
+            dirs.append(possem.Obj('Option', {}, 'an undated directive'))
+            mo = possem.Obj('FileModel', {'text': text, 'raw_directives': dirs}, 'model')
             mo.f['directives'] = mo.f['raw_directives']
             self.models.append(mo)
             return mo
@@ -97,6 +106,12 @@ def rule_ed_sem(ctx: RuleContext, p: Program, rid: str) -> None:
                 v = self.expr(e.value, env) if e.value is not None else None
                 self.body(self, v)
                 return None
+            if isinstance(e, ast.Attribute) and e.attr == 'tokens' and not (isinstance(e.value, ast.Name) and e.value.id not in env):
+                bv_ = self.expr(e.value, env)
+                if isinstance(bv_, possem.Obj) and bv_.cls == 'FileModel':
+                    # the tokens of a session model: its text in pieces of two characters (an edit that cuts off the tail leaves a prefix of the tokens)
+                    t_ = str(bv_.f['text'])
+                    return [possem.Obj('Tok', {'raw_text': t_[i:i + 2]}, f'tok{i}') for i in range(0, len(t_), 2)]
             if isinstance(e, ast.Attribute) and isinstance(e.value, ast.Name) and e.value.id == 'models' and 'models' not in env:
                 return possem.ClassRef(e.attr)
             if isinstance(e, ast.Attribute) and (dotted(e) or '') in ('os.path.normpath', 'os.path.dirname', 'os.path.basename', 'os.fspath', 'os.path.abspath'):
@@ -178,6 +193,12 @@ def rule_ed_sem(ctx: RuleContext, p: Program, rid: str) -> None:
                     return list(self.iter_of(A()[0], e)) if e.args else []
                 if fname in ('io.StringIO',):
                     return possem.Obj('StringIO', {}, 'buffer')
+                if fname.startswith('printer.') and 'printer' not in env and prn is not None:
+                    # the printer module is interpreted, whatever it offers (print_model, or a helper that compares a model with a text): the
+                    # session's models carry their text as a list of tokens
+                    pf = next((f for f in p.functions_in(prn) if f.qualname == fname.split('.', 1)[1] and f.parent is None), None)
+                    if pf is not None:
+                        return self.call_function(pf, A(), {k: self.expr(v, env) for k, v in kw.items()})
                 if fname in ('printer.print_model', 'print_model') and len(e.args) >= 1:
                     mo = A()[0]
                     buf = A()[1] if len(A()) > 1 else possem.Obj('StringIO', {}, 'buffer')
@@ -227,6 +248,9 @@ def rule_ed_sem(ctx: RuleContext, p: Program, rid: str) -> None:
                         return b.encode(*[x for x in A() if isinstance(x, str)] or ['utf-8'])
                     if isinstance(b, possem.Obj) and b.cls == 'StringIO' and attr == 'getvalue':
                         return b.f.get('text', '')
+                    if isinstance(b, possem.Obj) and b.cls == 'StringIO' and attr == 'write':
+                        b.f['text'] = b.f.get('text', '') + str(A()[0])
+                        return None
                     if isinstance(b, list) and attr in ('popleft', 'appendleft', 'extendleft'):
                         if attr == 'popleft':
                             if not b:
@@ -306,6 +330,12 @@ def rule_ed_sem(ctx: RuleContext, p: Program, rid: str) -> None:
             for mo in ([v] if not isinstance(v, dict) else v.values()):
                 mo.f['text'] = str(mo.f['text']) + '+edited'
 
+        def cut_tail(it: Any, v: Any) -> None:
+            # the last directive is removed: what the model prints is a proper prefix of what was read
+            for mo in ([v] if not isinstance(v, dict) else v.values()):
+                if len(str(mo.f['text'])) > 3:
+                    mo.f['text'] = str(mo.f['text'])[:-3]
+
         def remove_last(it: Any, v: Any) -> None:
             if isinstance(v, dict) and len(v) > 1:
                 del v[sorted(v)[-1]]
@@ -337,7 +367,7 @@ def rule_ed_sem(ctx: RuleContext, p: Program, rid: str) -> None:
         def boom(it: Any, v: Any) -> None:
             edit_all(it, v)
             raise possem.Raised('RuntimeError: the body of the with-block fails')
-        return [('the block changes nothing', nothing), ('the block edits one model', edit_first), ('the block edits every model', edit_all),
+        return [('the block changes nothing', nothing), ('the block edits one model', edit_first), ('the block edits every model', edit_all), ('the block cuts off the tail of every model', cut_tail),
                 ('the block removes an entry', remove_last), ('the block adds an entry', add_new), ('the block edits, removes and adds', mixed),
                 ('the block adds an entry whose model prints the empty text', add_empty), ('the block adds an entry with a bare file name', add_bare),
                 ('the block removes an entry and puts its model back under another spelling of the same path', respell),
